@@ -22,7 +22,7 @@ PROP = "C08"
 CLASSES = ["ConvexPolyhedron", "Polyhedron", "ConvexSpheropolyhedron", "Polygon",
            "ConvexPolygon", "ConvexSpheropolygon", "Circle", "Ellipse", "Sphere", "Ellipsoid"]
 TIERS = {
-    "quick": {"runs": 2000, "chunk": 10, "shrink_cap_s": 60, "max_minimised": 10},
+    "quick": {"runs": 16000, "chunk": 10, "shrink_cap_s": 60, "max_minimised": 10},
     "thorough": {"budget_s": 1200, "chunk": 10, "shrink_cap_s": 180, "max_minimised": 24},
     "run_cap_s": 180,
 }
